@@ -475,11 +475,11 @@ func main() {
 		Level:    "exploration",
 		Rule: "cases: (a) exhaustive grid Fin x Rsv x OpCode x Masked x 4 mask keys x 26 boundary lengths x 4 chunk plans, (b) random headers with log-uniform lengths, " +
 			"(c) all 65536 two-byte prefixes x every truncation / minimal / non-minimal / MSB form, (d) random byte strings, (e) pairs of whole frames (back to back, so an over- or under-read corrupts the second) across the 125/126, 65535/65536 and 1 MiB boundaries. " +
-			"(f) sequences of 2-5 random headers with payloads decoded by ONE streaming reader (validity checks off), each header compared with ws.ReadHeader over the same bytes - also after a non-final frame, when the reader considers a fragmented message open; (g) source kinds: sequences of 1-4 frames (payload lengths on the header-form thresholds, possibly cut short anywhere) decoded by ws.ReadHeader+payload reads, ws.ReadFrame and the streaming Reader from 10 kinds of io.Reader (plain, *bufio.Reader of 16/19/64/4096 bytes, nested, one that already served handshake bytes, bytes.Reader, bytes.Buffer, Read-only wrapper) under one chunk plan: same headers, payloads, frame count and end error (io.EOF on a frame boundary, io.ErrUnexpectedEOF inside a frame) from each. A case is non-trivial when both decoders and the encoder were compared with the independent reference codec; distinct = distinct (flag bits, length form, chunk plan) or (reference classification, length code, mask bit, plan) classes.",
+			"(f) sequences of 2-5 random headers with payloads decoded by ONE streaming reader (validity checks off), each header compared with ws.ReadHeader over the same bytes - also after a non-final frame, when the reader considers a fragmented message open; (g) source kinds: sequences of 1-4 frames (payload lengths on the header-form thresholds, possibly cut short anywhere) decoded by ws.ReadHeader+payload reads, ws.ReadFrame and the streaming Reader from 10 kinds of io.Reader (plain, *bufio.Reader of 16/19/64/4096 bytes, nested, one that already served handshake bytes, bytes.Reader, bytes.Buffer, Read-only wrapper) under one chunk plan: same headers, payloads, frame count and end error (io.EOF on a frame boundary, io.ErrUnexpectedEOF inside a frame) from each; (h) destination kinds: 1-4 frames written by ws.WriteHeader + payload, ws.WriteFrame and ws.MustWriteFrame to 8 kinds of io.Writer (bytes.Buffer, Write-only, one offering WriteString/WriteByte/ReadFrom, *bufio.Writer of 16/64/4096 bytes, a part-filled one, io.Pipe drained 7 bytes at a time): bytes received == reference encoding, caller's payload untouched. A case is non-trivial when both decoders and the encoder were compared with the independent reference codec; distinct = distinct (flag bits, length form, chunk plan) or (reference classification, length code, mask bit, plan) classes.",
 		Assumptions: []string{
 			"reference codec harness/ref written from RFC 6455 §5.2 is correct",
 			"the streaming decoder is observed through wsutil.Reader{SkipHeaderCheck:true}.NextFrame",
 		},
-		Subs: []mon.Sub{subEncodeGrid(), subEncodeRandom(), subBytesPrefix(), subBytesRandom(), subFrames(), subStreamSequences(), subSourceKinds()},
+		Subs: []mon.Sub{subEncodeGrid(), subEncodeRandom(), subBytesPrefix(), subBytesRandom(), subFrames(), subStreamSequences(), subSourceKinds(), subDestKinds()},
 	})
 }
